@@ -101,7 +101,8 @@ def corpus_variant(text, rnd):
     safe_slots = []
     for i, l in enumerate(lines[:end]):
         code = l.split(";")[0]
-        if brace == 0 and code.strip() and not code.rstrip().endswith(("+", "-", "*", ",", "(")) :
+        after = brace + code.count("{") - code.count("}")
+        if brace == 0 and after == 0 and code.strip() and not code.rstrip().endswith(("+", "-", "*", ",", "(")):
             safe_slots.append(i + 1)
         m = ASSIGN_LINE.match(l)
         if m and brace == 0 and "." not in re.sub(r"[A-Za-z_0-9$.]*[A-Za-z_0-9$]|\d+\.", "", m.group(2)) and m.group(2).strip() and \
